@@ -351,3 +351,58 @@ def first_stmt(body):
 def last_stmt(body):
     rb = real_body(body)
     return rb[-1] if rb else None
+
+
+_SEQ_WRAPPERS = ('list', 'tuple', 'sorted', 'iter', 'reversed')
+
+
+def iterated_mapping(it: ast.AST) -> tuple[ast.AST, str] | None:
+    """(mapping expression, 'keys' | 'values' | 'items') when the iterable `it` is a mapping's own content:
+    `m`, `m.keys()`, `m.values()`, `m.items()`, each possibly inside list()/tuple()/sorted()/iter()/reversed().
+    A call result counts as a mapping only when one of the three methods is applied to it (`f(x).items()`)."""
+    while isinstance(it, ast.Call) and isinstance(it.func, ast.Name) and it.func.id in _SEQ_WRAPPERS \
+            and len(it.args) == 1 and all(k.arg in ('key', 'reverse') for k in it.keywords):
+        it = it.args[0]
+    if isinstance(it, ast.Call) and isinstance(it.func, ast.Attribute) and not it.args and not it.keywords \
+            and it.func.attr in ('keys', 'values', 'items'):
+        m = it.func.value
+        if isinstance(m, (ast.Name, ast.Attribute, ast.Subscript, ast.Call)):
+            return m, it.func.attr
+        return None
+    if isinstance(it, (ast.Name, ast.Attribute, ast.Subscript)):
+        return it, 'keys'
+    return None
+
+
+def map_iteration(target: ast.AST, it: ast.AST) -> tuple[str, str | None, str | None] | None:
+    """What a `for target in it` (statement or comprehension clause) walks when `it` is a mapping's own
+    content (see iterated_mapping): (normalised text of the mapping, key variable or None, value variable or
+    None).  None when `it` is anything else (a literal, an arbitrary call …)."""
+    im = iterated_mapping(it)
+    if im is None:
+        return None
+    m, how = norm(im[0]), im[1]
+    if how == 'items':
+        if isinstance(target, (ast.Tuple, ast.List)) and len(target.elts) == 2:
+            k, v = target.elts
+            return m, (k.id if isinstance(k, ast.Name) else None), (v.id if isinstance(v, ast.Name) else None)
+        return m, None, None
+    if not isinstance(target, ast.Name):
+        return m, None, None
+    return (m, target.id, None) if how == 'keys' else (m, None, target.id)
+
+
+def enclosing_iterations(n: ast.AST, stop: ast.AST | None = None):
+    """(owner, target, iter) of every `for` statement whose *body* contains n and of every comprehension clause
+    that governs n, innermost first; stops at `stop` / the enclosing function."""
+    child = n
+    for a in ancestors(n):
+        if a is stop or isinstance(a, (ast.FunctionDef, ast.AsyncFunctionDef, ast.Lambda)):
+            break
+        if isinstance(a, (ast.For, ast.AsyncFor)) and any(child is s for s in a.body):
+            yield a, a.target, a.iter
+        elif isinstance(a, (ast.ListComp, ast.SetComp, ast.GeneratorExp, ast.DictComp)):
+            for g in reversed(a.generators):
+                if child is not g:
+                    yield a, g.target, g.iter
+        child = a
